@@ -162,7 +162,7 @@ func GenRequests(g *tape.Stream, fg *tape.Stream, s *Setup, p *Profile) [][]*Req
 			}
 			q.Flusher = g.Intn(3) == 1
 			if g.Intn(4) == 1 {
-				q.Hijacker = 1
+				q.Hijacker = 1 + g.Intn(2)
 			}
 			q.ReaderFrom = g.Intn(3) == 1
 			switch g.Intn(10) { // request headers that middleware is known to special-case
